@@ -219,6 +219,95 @@ LEGACY_VERSION_PATTERNS_WITH_PEP440 = ("{pycalver}", "{semver}", "v{year}{month}
                                        "v{year}{build}{release}", "{year}{build}{release}")
 
 
+def v1_reader_eval(ctx, rule: str) -> None:
+    """v1version._parse_field_values evaluated (dates from the standard library) on captured group dicts: every field of the
+    result is the captured value (numbers as int, two-digit years expanded, the short tag as its long form), month / day of the
+    month follow from year + day of year, day of year and both week numbers from year + month + day (Monday-based week as
+    iso_week, Sunday-based as us_week), the quarter from the month when it was not captured."""
+    import datetime as _dt
+    from sa.model import Abstract, CannotFold, EvalError, Raised
+    prog = ctx.prog
+    fn = prog.function("v1version._parse_field_values")
+    ctx.visit(fn.fq)
+    fields = prog.klass("version.V1VersionInfo").fields
+    p2t = prog.const("version", "TAG_BY_PEP440_TAG")
+
+    class D(Abstract):
+        def __init__(self, d: "_dt.date"):
+            self.d, self.year, self.month, self.day = d, d.year, d.month, d.day
+
+        def strftime(self, fmt: str) -> str:
+            return self.d.strftime(fmt)
+
+    def mk_date(f: T.Any, node: ast.Call) -> D:
+        args = [f(a) for a in node.args]
+        try:
+            return D(_dt.date(*args, **{k.arg: f(k.value) for k in node.keywords}))
+        except (ValueError, TypeError) as ex:
+            raise Raised(type(ex).__name__, message=str(ex))
+
+    def from_doy(f: T.Any, node: ast.Call) -> D:
+        y, n = [f(a) for a in node.args]
+        return D(_dt.date(y, 1, 1) + _dt.timedelta(days=n - 1))
+
+    def ctor(f: T.Any, node: ast.Call) -> T.Dict[str, T.Any]:
+        d = dict(zip(fields, [f(a) for a in node.args]))
+        d.update({k.arg: f(k.value) for k in node.keywords if k.arg})
+        return d
+    stubs = {"dt.date": mk_date, "datetime.date": mk_date, "version.date_from_doy": from_doy, "version.V1VersionInfo": ctor,
+             "version.quarter_from_month": lambda f, node: (f(node.args[0]) - 1) // 3 + 1}
+    cases = [{"year": "2021", "month": "01", "dom": "10", "bid": "1001", "tag": "b"}, {"year": "2021", "month": "03", "dom": "14", "bid": "0033"},
+             {"year": "21", "doy": "045", "bid": "1002", "tag": "rc"}, {"major": "1", "minor": "22", "patch": "3", "tag": "final"}, {"year": "2020", "quarter": "4", "bid": "1001"},
+             {"year": "2024", "month": "12", "dom": "31", "bid": "9999", "tag": "post"}, {"year": "2021", "month": "02", "dom": "30", "bid": "1001"}, {"bid": "1001"}]
+
+    def reference(g: T.Dict[str, str]) -> T.Any:
+        year = int(g["year"]) if "year" in g else None
+        if year is not None and year < 100:
+            year += 2000
+        doy = int(g["doy"]) if "doy" in g else None
+        month = int(g["month"]) if "month" in g else None
+        dom = int(g["dom"]) if "dom" in g else None
+        if year and doy:
+            d0 = _dt.date(year, 1, 1) + _dt.timedelta(days=doy - 1)
+            month, dom = d0.month, d0.day
+        wk_m = wk_s = None
+        if year and month and dom:
+            try:
+                d1 = _dt.date(year, month, dom)
+            except ValueError:
+                return "raises PatternError"
+            doy, wk_m, wk_s = int(d1.strftime("%j")), int(d1.strftime("%W")), int(d1.strftime("%U"))
+        quarter = int(g["quarter"]) if "quarter" in g else ((month - 1) // 3 + 1 if month else None)
+        tag = g.get("tag") or "final"
+        return {"year": year, "quarter": quarter, "month": month, "dom": dom, "doy": doy, "iso_week": wk_m, "us_week": wk_s,
+                "major": int(g.get("major", 0)), "minor": int(g.get("minor", 0)), "patch": int(g.get("patch", 0)), "bid": g.get("bid", "0001"), "tag": p2t.get(tag, tag)}
+    wrong: T.List[str] = []
+    n = 0
+    try:
+        for g in cases:
+            try:
+                got, _ys = prog.run_body(fn, {fn.params[0]: dict(g), "__strict__": True, "__stubs__": stubs})
+            except Raised as ex:
+                got = f"raises {ex.name}"
+            except EvalError as ex:
+                got = f"raises {getattr(ex, 'raised', None) or ex}".replace("version.", "")
+            want = reference(g)
+            n += 1
+            if isinstance(want, dict) and isinstance(got, dict):
+                diff = {k: (got.get(k), v) for k, v in want.items() if k in fields and got.get(k) != v}
+                if diff and len(wrong) < 3:
+                    wrong.append(f"groups {g}: " + ", ".join(f"{k} = {a!r} (expected {b!r})" for k, (a, b) in sorted(diff.items())))
+            elif got != want and len(wrong) < 3:
+                wrong.append(f"groups {g}: {got if not isinstance(got, dict) else 'a version'} (expected {want if not isinstance(want, dict) else 'a version'})")
+    except (CannotFold, TypeError, AttributeError, KeyError, ValueError, IndexError) as ex:
+        ctx.observe(f"{fn.fq} not evaluated ({type(ex).__name__}: {str(ex)[:80]})")
+        return
+    ctx.check(rule, not wrong, f"v1 reader: every field of the parsed version is the captured / derived value ({n} group dicts evaluated, Sunday 2021-01-10 and 30 February among them)",
+              "v1version._parse_field_values: a field of the parsed legacy version is not the value that was captured (or derived from the captured date)",
+              "; ".join(wrong[:2]) + ": the version does not read back with the same parts; files are rewritten from the re-parsed version", loc=fn.loc(),
+              witness={"pattern": "v{year}{month}{dom}w{us_week}", "version": "v20210110w02"})
+
+
 def run(ctx) -> None:
     prog, cfgs = ctx.prog, ctx.cfgs
     ctx.rule("R1", "for each named legacy part: Image(renderer) ⊆ L(regex), ordered choice consumes the rendering; parts are renderable and mapped to fields")
@@ -286,10 +375,9 @@ def run(ctx) -> None:
             img = rl.Cat(pieces) if pieces else rl.Eps()
         except KeyError as ex:
             msg = f"legacy part '{part}' is recognised but cannot be rendered: no format entry and no kwargs value for {ex}"
-            if in_scope:
-                ctx.bad("R1", f"v1: part '{part}' is not renderable", msg, loc="src/bumpver/v1patterns.py")
-            else:
-                ctx.observe(msg)
+            # (also for the parts whose read-back quirks are out of scope: a part that the recogniser accepts and the
+            # renderer does not know at all ends every bump of such a pattern in a KeyError)
+            ctx.bad("R1", f"v1: part '{part}' is not renderable", msg, loc="src/bumpver/v1patterns.py")
             continue
         rx_txt = composed_regex(ctx, part, pats, comps)
         rx = rl.from_regex(rx_txt)
@@ -433,6 +521,7 @@ def run(ctx) -> None:
     none_filter_rule(ctx, "v1version", "R4")          # "strictly greater than their input": the future guard compares every calendar field the two sides have
     from checks.c02 import parsed_quarter_rule, part_language_band_rule, int_reads_rule
     int_reads_rule(ctx, "R1", "v1version._parse_field_values", ("year", "quarter", "month", "dom", "doy", "major", "minor", "patch"))
+    v1_reader_eval(ctx, "R1")
     parsed_quarter_rule(ctx, "R1", "v1version._parse_field_values")
     import re as _re20
     part_language_band_rule(ctx, "R1", "v1patterns", V1_PART_REF, V1_PART_REF, min_flags=_re20.ASCII)
@@ -553,7 +642,7 @@ def run(ctx) -> None:
 
     # ---------------------------------------------------------------- R3
     witnesses = sorted({"{" + p + "}" for p in set(pats) | set(comps) | set(full)})
-    ctx.floor("R3", "legacy placeholders (witness set)", len(witnesses), 43)
+    ctx.floor("R3", "legacy placeholders (witness set)", len(witnesses), 20)          # read from the tables themselves; the named ones are required one by one above
     sites = [("cli.incr_dispatch", "has_v1_part", True), ("cli._is_valid_version", "is_new_pattern", False),
              ("config._parse_config", "is_new_pattern", False)]
     site_bf: T.Dict[str, BF] = {}
